@@ -117,6 +117,115 @@ class SCRG_remove_atom_1(LoopInv):
         ]
 
 
+def _frame_other_refs(ctx, tname, ref, val=True):
+    """the havocked heap arrays of dict type tname agree with the loop-entry arrays at every reference but `ref`"""
+    h = H.heap_of(ctx.interp)
+    r_ = z3.Int("lr")
+    body = z3.Select(h.dom[tname], r_) == z3.Select(ctx.h_entry.dom[tname], r_)
+    if val:
+        body = z3.And(body, z3.Select(h.val[tname], r_) == z3.Select(ctx.h_entry.val[tname], r_))
+    return FA([r_], z3.Implies(r_ != ref, body))
+
+
+class SMG_enantiomer_0(LoopInv):
+    """for atom in self.atoms: if stereo := self.get_atom_stereo(atom): enantiomer.set_atom_stereo(stereo.invert())"""
+    modifies_dict_dom = ("astereo",)
+    modifies_dict_val = ("astereo",)
+
+    def inv(self, ctx, done):
+        e = ctx.fr.env["enantiomer"]
+        v0 = ctx.v_entry                                   # self at loop entry (never modified)
+        ve0 = GM.View(ctx.h_entry, e)                       # the copy at loop entry
+        ve = GM.View(H.heap_of(ctx.interp).snapshot(), e)   # the copy now
+        x = z3.Int("lx")
+        osome = H.ODescrS.DSome
+        view = lambda vv, xx: z3.If(vv.as_has(xx), osome(vv.as_val(xx)), H.ODescrS.DNone)  # noqa
+        return [
+            ("visited-are-atoms", FA([x], z3.Implies(z3.Select(done, x), z3.Select(ctx.C, x)), patterns=[z3.Select(done, x)])),
+            ("visited-centres-inverted-others-as-copied",
+             FA([x], view(ve, x) == z3.If(z3.And(z3.Select(done, x), v0.as_has(x)), osome(GM.d_invert(v0.as_val(x))), view(ve0, x)))),
+            ("only-the-copy's-atom-stereo-table-is-written", _frame_other_refs(ctx, "astereo", e.fields["_atom_stereo"].ref)),
+        ]
+
+
+class SMG_enantiomer_1(LoopInv):
+    """for bond, bond_stereo in self._bond_stereo.items(): enantiomer._bond_stereo[bond] = bond_stereo.invert()"""
+    modifies_dict_dom = ("bstereo",)
+    modifies_dict_val = ("bstereo",)
+
+    def inv(self, ctx, done):
+        e = ctx.fr.env["enantiomer"]
+        v0 = ctx.v_entry
+        ve0 = GM.View(ctx.h_entry, e)
+        ve = GM.View(H.heap_of(ctx.interp).snapshot(), e)
+        b = z3.Const("lb", BondS)
+        osome = H.ODescrS.DSome
+        view = lambda vv, bb: z3.If(vv.bs_has(bb), osome(vv.bs_val(bb)), H.ODescrS.DNone)  # noqa
+        return [
+            ("visited-are-keys", FA([b], z3.Implies(z3.Select(done, b), z3.Select(ctx.C, b)), patterns=[z3.Select(done, b)])),
+            ("visited-bond-descriptors-inverted-others-as-copied",
+             FA([b], view(ve, b) == z3.If(z3.Select(done, b), osome(GM.d_invert(v0.bs_val(b))), view(ve0, b)))),
+            ("only-the-copy's-bond-stereo-table-is-written", _frame_other_refs(ctx, "bstereo", e.fields["_bond_stereo"].ref)),
+        ]
+
+
+def _chg_view(vv, atomic, k, c):
+    if atomic:
+        return z3.If(z3.And(vv.ac_has(k), vv.ac_slot_has(k, c)), vv.ac_slot(k, c), H.ODescrS.DNone)
+    return z3.If(z3.And(vv.bc_has(k), vv.bc_slot_has(k, c)), vv.bc_slot(k, c), H.ODescrS.DNone)
+
+
+class _SCRG_enantiomer_changes(LoopInv):
+    atomic = True
+    allocates = True  # every iteration builds a new ChangeDict
+
+    def setup(self, ctx, iterable):
+        t = "achg" if self.atomic else "bchg"
+        self.modifies_dict_dom = (t, "chg")
+        self.modifies_dict_val = (t, "chg")
+
+    def inv(self, ctx, done):
+        e = ctx.fr.env["enantiomer"]
+        v0 = ctx.v_entry
+        ve0 = GM.View(ctx.h_entry, e)
+        h = H.heap_of(ctx.interp)
+        ve = GM.View(h.snapshot(), e)
+        k = z3.Int("lk") if self.atomic else z3.Const("lkb", BondS)
+        ko = z3.Const("lko", BondS) if self.atomic else z3.Int("lko")
+        c = z3.Const("lc", H.ChgS)
+        r_ = z3.Int("lr")
+        old = _chg_view(v0, self.atomic, k, c)
+        inverted = z3.If(H.ODescrS.is_DSome(old), H.ODescrS.DSome(GM.d_invert(H.ODescrS.dd(old))), H.ODescrS.DNone)
+        t = "achg" if self.atomic else "bchg"
+        tref = e.fields["_atom_stereo_change" if self.atomic else "_bond_stereo_change"].ref
+        has = ve.ac_has if self.atomic else ve.bc_has
+        ref = ve.ac_ref if self.atomic else ve.bc_ref
+        ref0 = ve0.ac_ref if self.atomic else ve0.bc_ref
+        has0 = ve0.ac_has if self.atomic else ve0.bc_has
+        top = h.top()
+        return [
+            ("visited-are-keys", FA([k], z3.Implies(z3.Select(done, k), z3.Select(ctx.C, k)), patterns=[z3.Select(done, k)])),
+            ("visited-changes-inverted-others-as-copied", FA([k, c], _chg_view(ve, self.atomic, k, c) == z3.If(z3.Select(done, k), inverted, _chg_view(ve0, self.atomic, k, c)))),
+            # ownership of the copy's change dictionaries: allocated, unshared, not one of the source's
+            ("change-dicts-of-the-copy-allocated-and-not-the-source's", FA([k], z3.Implies(has(k), z3.And(ref(k) >= ctx.h_entry.A0, ref(k) < top)))),
+            ("change-dicts-of-the-copy-unshared", FA([k, ko] if False else [k, z3.Const("lk2", k.sort())],
+                                                   z3.Implies(z3.And(has(k), has(z3.Const("lk2", k.sort())), k != z3.Const("lk2", k.sort())), ref(k) != ref(z3.Const("lk2", k.sort()))))),
+            ("only-the-copy's-table-is-written", _frame_other_refs(ctx, t, tref)),
+            ("old-change-dicts-untouched", FA([r_], z3.Implies(r_ < ctx.h_entry.A0, z3.And(z3.Select(h.dom["chg"], r_) == z3.Select(ctx.h_entry.dom["chg"], r_),
+                                                                                           z3.Select(h.val["chg"], r_) == z3.Select(ctx.h_entry.val["chg"], r_))))),
+        ]
+
+
+class SCRG_enantiomer_0(_SCRG_enantiomer_changes):
+    """for atom in self.atoms: ... enantiomer.set_atom_stereo_change(**{change.value: stereo.invert() ...})"""
+    atomic = True
+
+
+class SCRG_enantiomer_1(_SCRG_enantiomer_changes):
+    """for bond, bond_change_dict in self._bond_stereo_change.items(): enantiomer._bond_stereo_change[bond] = ChangeDict(...inverted...)"""
+    atomic = False
+
+
 def _role_loop(label):
     class _L(LoopInv):
         __doc__ = f"""for bond in self.bonds: a1, a2 = bond; if self.get_bond_attribute(a1, a2, "reaction") == Change.{label}: acc.add(bond)"""
@@ -140,6 +249,10 @@ def _role_loop(label):
 
 
 LOOPS = {
+    ("graphs/scrg.py", "StereoCondensedReactionGraph.enantiomer", 0): SCRG_enantiomer_0,
+    ("graphs/scrg.py", "StereoCondensedReactionGraph.enantiomer", 1): SCRG_enantiomer_1,
+    ("graphs/smg.py", "StereoMolGraph.enantiomer", 0): SMG_enantiomer_0,
+    ("graphs/smg.py", "StereoMolGraph.enantiomer", 1): SMG_enantiomer_1,
     ("graphs/crg.py", "CondensedReactionGraph.get_formed_bonds", 0): _role_loop("FORMED"),
     ("graphs/crg.py", "CondensedReactionGraph.get_broken_bonds", 0): _role_loop("BROKEN"),
     ("graphs/crg.py", "CondensedReactionGraph.get_fleeting_bonds", 0): _role_loop("FLEETING"),
